@@ -17,6 +17,7 @@ Arguments tl_try : simpl never.
 Arguments tl_rel_raises : simpl never.
 Arguments normalise : simpl never.
 Arguments faulty : simpl never.
+Arguments intr : simpl never.
 Arguments enabled : simpl never.
 Arguments remove_all : simpl never.
 Arguments remove_one : simpl never.
@@ -70,7 +71,7 @@ Definition cfg_ok (ocfg : list (pid * bool * tmo)) (tcfg : list (pid * list call
 Definition wf_thr (th : thread) : Prop :=
   match t_pc th with
   | PIdle | PUnlock _ _ _ | PCloseR _ _ _ | PTLRel _ _ => prog_ok (t_cs th) (t_prog th)
-  | PTLAcq a _ | POpen a | PFlock a _ | PCloseF a _ | PSleep a _ | PCleanRel a _ =>
+  | PTLAcq a _ | POpen a | PFlock a _ | PCloseF a _ _ | PSleep a _ | PCleanRel a _ =>
       prog_ok (a_o a :: t_cs th) (t_prog th) /\ prog_ok (t_cs th) (skipn (a_skip a) (t_prog th))
   end.
 
@@ -81,7 +82,7 @@ Definition W (s : state) : Prop :=
 (* thread t's record after an acquire-stage step that did not succeed *)
 Definition acq_like (p : pc) (a : aloc) : Prop :=
   match p with
-  | POpen a' | PFlock a' _ | PCloseF a' _ | PSleep a' _ | PCleanRel a' _ => a_o a' = a_o a /\ a_skip a' = a_skip a
+  | POpen a' | PFlock a' _ | PCloseF a' _ _ | PSleep a' _ | PCleanRel a' _ => a_o a' = a_o a /\ a_skip a' = a_skip a
   | _ => False
   end.
 
@@ -153,7 +154,7 @@ Lemma W_step_local s t :
 Proof.
   intros [HT HF] Hw Hp. unfold step. destruct (negb (enabled s t)); [repeat split; auto|].
   unfold wf_thr in Hw.
-  destruct (t_pc (thr s t)) as [|a dl|a|a d|a d|a w|a oserr|o d k|o d k|o k] eqn:Hpc.
+  destruct (t_pc (thr s t)) as [|a dl|a|a d|a d i|a w|a oserr|o d k|o d k|o k] eqn:Hpc.
   - (* PIdle *)
     destruct (t_prog (thr s t)) as [|c rest] eqn:Hpr; [repeat split; auto; unfold wf_thr; now rewrite Hpc, Hpr|].
     assert (Hproc : o_proc (objs s (call_obj c)) = t_proc (thr s t)) by (apply Hp; now left).
@@ -187,7 +188,13 @@ Proof.
         (split; [split; auto|]); intros o'; cbn; apply upd_proc; cbn; auto.
     + thr_simpl. rewrite is_fail_fail_result. split; [reflexivity|]. split; [unfold wf_thr; thr_simpl; tauto|].
       split; [split; auto; apply In_skipn|auto].
-  - (* POpen *) cbn. destruct (faulty s KOpen).
+  - (* POpen *) cbn. destruct (faulty s KOpen); [destruct (intr s KOpen)|].
+    + rewrite viol_enter_cleanup. split; [reflexivity|].
+      match goal with |- context [enter_cleanup ?s1 t a true] => pose proof (acq_next_enter_cleanup s1 t a true) as R;
+         pose proof (Tail_enter_cleanup s1 t a true) as T end.
+      split; [eapply wf_acq_next; [|exact R]; exact Hw|].
+      split; [|intros o'; now rewrite (oproc_tail _ _ _ _ _ T)].
+      destruct R as (_ & R1 & [[R2 _]|[R2 _]]); split; auto; rewrite R2; auto. cbn. apply In_skipn.
     + rewrite viol_after_attempt. split; [reflexivity|].
       match goal with |- context [after_attempt ?s1 t a] => pose proof (acq_next_after_attempt s1 t a) as R;
          pose proof (Tail_after_attempt s1 t a) as T end.
@@ -198,7 +205,7 @@ Proof.
   - (* PFlock *) cbn. destruct (faulty s KLock); [|destruct (holder_free_for _ d)]; thr_simpl;
       (split; [reflexivity|]); (split; [unfold wf_thr; thr_simpl; tauto|]); (split; [split; auto|]); auto.
     intros o'. apply upd_proc. reflexivity.
-  - (* PCloseF *) cbn. destruct (faulty s KClose).
+  - (* PCloseF *) cbn. destruct (faulty s KClose || i).
     + rewrite viol_enter_cleanup, viol_k_close. split; [reflexivity|].
       match goal with |- context [enter_cleanup ?s1 t a true] => pose proof (acq_next_enter_cleanup s1 t a true) as R;
          pose proof (Tail_enter_cleanup s1 t a true) as T end.
